@@ -165,8 +165,29 @@ LADDER = [(("call",), "call-overtaint"), (("object",), "object-level-field-taint
           (("call", "object"), "call-overtaint+object-level-field-taint")]
 
 
-def classify_flow(case, facts, graphs, rules, flow, ops):
-    """-> list of (sig, what) for one reported flow."""
+def designated_words(facts, rules, tsite):
+    """operand names (vocabulary of taint_gen.lian_operand) designated by the sink rules that apply at tsite"""
+    words = set()
+    for r in rules["sink"]:
+        if tg.sink_match(facts, r, tsite) is None:
+            continue
+        kind = tg.OP_KIND_SNK.get(r.get("operation"))
+        ts = tg.rule_targets(r)
+        if kind == "recordw" or not ts:
+            words.add("*")
+        for t in ts:
+            if t == "target" or not t:
+                words.add("*")
+            elif kind == "fieldw":
+                words.add("value" if t == "arg1" else "receiver")
+            else:
+                words.add(t)
+    return words
+
+
+def classify_flow(case, facts, graphs, rules, flow, ops, tainted_ops=None):
+    """-> list of (sig, what) for one reported flow.  tainted_ops: the operands of the sink statement that carried the
+    tag inside lian (observed by wrapping the sink check), or None."""
     graph = graphs.get()
     j = tg.justify(facts, graph, rules, flow)
     out = []
@@ -207,6 +228,15 @@ def classify_flow(case, facts, graphs, rules, flow, ops):
                     o = tg.sink_match(facts, r, tsite, ignore=("operation",))
                     if o and any(graph.operand_states(x) & reach for x in o):
                         why = "operand-of-other-operation-rule:" + top
+        # (a'') lian found the tag only on operands that no applicable rule designates
+        if why is None and tainted_ops:
+            want = designated_words(facts, rules, tsite)
+            if "*" not in want and not (set(tainted_ops) & want):
+                if case.get("keep_from_code"):
+                    why = "from-code-rules:other-operand"
+                else:
+                    why = "operand-not-designated"
+                    detail = "tainted %s, designated %s" % (sorted(tainted_ops), sorted(want))
         # (b) which named weakening of the reference reading explains the report
         if why is None:
             for relax, name in LADDER:
@@ -246,7 +276,7 @@ def check_case(case):
     if case.get("rules_small") is not None:
         runs.append(("small", case["rules_small"]))
     for tag, rules in runs:
-        lr = tg.run_lian(files, rules, keep_from_code=bool(case.get("keep_from_code")))
+        lr = tg.run_lian(files, rules, keep_from_code=bool(case.get("keep_from_code")), trace_sinks=True)
         info["flows"][tag] = lr["flows"]
         ops = {(d[0], d[1], d[3], d[4]): (d[2], d[5]) for d in lr["detail"] if len(d) == 6}
         if lr["exc"]:
@@ -257,7 +287,7 @@ def check_case(case):
                 len(lr["flows"]), which, sorted(lr["flows"])[:3])))
             continue
         for flow in sorted(lr["flows"]):
-            out.extend(classify_flow(case, facts, graphs, rules, flow, ops))
+            out.extend(classify_flow(case, facts, graphs, rules, flow, ops, lr.get("operands", {}).get(flow)))
     if "small" in info["flows"]:
         lost = sorted(info["flows"]["small"] - info["flows"]["full"])
         if lost:
